@@ -119,6 +119,12 @@ TENT* _ZN3tbb6detail2d117concurrent_vectorI4Elem12vp_allocatorIS3_EE19allocate_l
   return 0;
 }
 #endif
+/* no allocation failure is injected in these runs (and the units are compiled -fno-exceptions, where the real function aborts):
+   any tbb::detail::r1::throw_exception (bad_alloc / out_of_range from the failure-tag checks) is a violation */
+void _ZN3tbb6detail2r115throw_exceptionENS0_2d012exception_idE(u32 id) {
+  VP_ASSERT(0, "growth call raised an exception (saw a failure tag / failed table) although no allocation failed");
+  __CPROVER_assume(0);
+}
 static int in_live_block(u8* a) {
 #ifdef NOLIVE
   return 1;
